@@ -3,6 +3,7 @@
 //   C <pattern>                      -> ranges "lo-hi lo-hi ..." of all chars c such that ^(?:pattern)$ matches c (single-char classes)
 //   M <pattern> \t <text>            -> "null" | "s,e s,e - ..." capture group spans (byte offsets) of the first match
 //   R <pattern> \t <repl> \t <text>  -> replace_all result (escaped)
+//   E <text>                         -> regex::escape(text) (escaped)
 use regex::Regex;
 use std::io::BufRead;
 
@@ -42,6 +43,7 @@ fn main() {
         let (cmd, rest) = (&line[..1], &line[2..]);
         let parts: Vec<String> = rest.split('\t').map(unescape).collect();
         let pat = parts[0].clone();
+        if cmd == "E" { println!("OK {}", escape(&regex::escape(&pat))); continue; }
         let key = if cmd == "C" { format!("^(?:{})$", pat) } else { pat.clone() };
         if !cache.contains_key(&key) {
             match Regex::new(&key) { Ok(r) => { cache.insert(key.clone(), r); }, Err(e) => { println!("ERR {}", escape(&e.to_string())); continue; } }
